@@ -208,14 +208,28 @@ def tasks(tier):
 
 
 ASSUMPTIONS = BASE_TRUSTED + [
-    "A6: binary64 arithmetic in the lattice functions is treated as exact real arithmetic (pivots are integers < 2^53, scalings are by powers of two); backed by the proved margin",
+    "A6: binary64 arithmetic in the lattice functions (parts B, C) is treated as exact real arithmetic: float literals and table entries enter as their exact rational values; pivots are integers < 2^53 and scalings are by powers of two; backed by the proved margin 1/10 >> accumulated rounding",
+    "part A: Python ints are 80-bit bit-vectors with no-wrap obligations (most discharged by a sound interval pre-analysis); levels 1..28 and the three (invert_j, flip_ij) classes are the whole domain, every loop is unrolled at its concrete length",
+    "part B: the inductive step of the digit-recovery loop is proved for all scales and margins of the domain; the induction itself (composition over the h iterations, Tri region of the tail) is NOT mechanised: it is covered by a bounded native round-trip check (labelled bounded, not counted)",
+    "not claimed: the clause that the first level-k digits identify the level-k ancestor cell (the lattice triangles of the pinned code do not nest that way)",
 ]
 
 
 def main(argv=None):
+    import time
+    from ..framework import native_replay, write_replay_file
     a = parse_args(argv if argv is not None else sys.argv[1:])
     cmd = "python3-vt -m a5verif check C18 --tier %s" % a.tier
-    return run_pyvc_check("C18", a.tier, a.seed, tasks(a.tier), ASSUMPTIONS, cmd)
+
+    def extra(res, coverage):
+        t0 = time.time()
+        rp = native_replay("C18", "hilbert", {"model": {}})
+        coverage["bounded"] = {"what": "index -> anchor -> pentagon -> centre -> index on the real code: all indices of levels 1..5 for the six orientations, plus digit-pattern-directed and random indices at every level 1..28, in one process (a5verif/replay_more.py r_hilbert)",
+                               "result": rp, "seconds": round(time.time() - t0, 2), "counted_as_proved": False}
+        if rp.get("confirmed"):
+            path = write_replay_file("C18", "C18/round-trip(bounded)", {"property": "C18", "obligation": "C18/round-trip(bounded stand-in for the induction over digits)", "native": rp})
+            res.violations.append(("C18/round-trip(bounded stand-in)", path, ""))
+    return run_pyvc_check("C18", a.tier, a.seed, tasks(a.tier), ASSUMPTIONS, cmd, extra_steps=[extra])
 
 
 if __name__ == "__main__":
